@@ -29,6 +29,11 @@ import (
 
 	sdkmath "cosmossdk.io/math"
 	sdk "github.com/cosmos/cosmos-sdk/types"
+	authcodec "github.com/cosmos/cosmos-sdk/x/auth/codec"
+	chainparams "github.com/palomachain/paloma/v2/app/params"
+	"github.com/palomachain/paloma/v2/util/eventbus"
+	evmtypes "github.com/palomachain/paloma/v2/x/evm/types"
+	skywaykeeper "github.com/palomachain/paloma/v2/x/skyway/keeper"
 	skywaytypes "github.com/palomachain/paloma/v2/x/skyway/types"
 	"github.com/palomachain/paloma/v2/zzverif/explore"
 	"github.com/palomachain/paloma/v2/zzverif/report"
@@ -47,16 +52,20 @@ const (
 // stake distributions and the worker table
 
 type dist struct {
-	Name   string
-	Powers []int64
+	Name    string
+	Powers  []int64
+	Compass bool // deployment scenario: claim variants by compass id + ActivateCompass (no Power/Override/CatchUp)
+	Legacy  bool // start with the chain ACTIVE but no latest compass id on record (see setup)
 }
 
 var dists = []dist{
-	{"34-33-33", []int64{34, 33, 33}},
-	{"50-30-20", []int64{50, 30, 20}},
-	{"1-1-1", []int64{1, 1, 1}},
-	{"67-33", []int64{67, 33}},
-	{"25-25-25-25", []int64{25, 25, 25, 25}},
+	{"34-33-33", []int64{34, 33, 33}, false, false},
+	{"50-30-20", []int64{50, 30, 20}, false, false},
+	{"1-1-1", []int64{1, 1, 1}, false, false},
+	{"67-33", []int64{67, 33}, false, false},
+	{"25-25-25-25", []int64{25, 25, 25, 25}, false, false},
+	{"34-33-33/compass", []int64{34, 33, 33}, true, false},
+	{"34-33-33/compass-legacy", []int64{34, 33, 33}, true, true},
 }
 
 // plan: which distributions run, how many worker processes each gets, depth.
@@ -79,14 +88,53 @@ func plan() []planItem {
 		return []planItem{{i, n, d, os.Getenv("C02_UNREG") != ""}}
 	}
 	if report.Tier() == "thorough" {
-		return []planItem{{0, 6, 7, false}, {1, 2, 6, true}, {2, 2, 6, true}, {3, 1, 7, true}, {4, 5, 6, false}}
+		return scale([]planItem{{0, 5, 7, false}, {5, 1, 6, false}, {6, 1, 6, false}, {1, 2, 6, true}, {2, 2, 6, true}, {3, 1, 7, true}, {4, 4, 6, false}})
 	}
-	return []planItem{{0, 7, 6, false}, {1, 7, 6, false}, {2, 2, 5, false}}
+	return scale([]planItem{{0, 6, 6, false}, {5, 2, 5, false}, {6, 1, 6, false}, {1, 6, 6, false}, {2, 1, 5, false}})
+}
+
+// scale fits the plan (laid out for 16 worker processes) to report.Workers():
+// every search keeps at least one process; with fewer processes than searches
+// the last searches are dropped and reported as a cap.
+var dropped []string
+
+func scale(items []planItem) []planItem {
+	w := report.Workers()
+	if w >= 16 {
+		return items
+	}
+	if w < len(items) {
+		for _, it := range items[w:] {
+			dropped = append(dropped, dists[it.Dist].Name)
+		}
+		items = items[:w]
+	}
+	total := 0
+	for i := range items {
+		n := items[i].Workers * w / 16
+		if n < 1 {
+			n = 1
+		}
+		items[i].Workers = n
+		total += n
+	}
+	for i := 0; total > w; i = (i + 1) % len(items) { // rounding up the small ones may overshoot
+		if items[i].Workers > 1 {
+			items[i].Workers--
+			total--
+		}
+	}
+	for total < w { // leftovers go to the largest search
+		items[0].Workers++
+		total++
+	}
+	return items
 }
 
 type slot struct {
 	Dist, Sub, NSub, Depth int
 	Unreg                  bool
+	Replay                 bool
 }
 
 func slots() []slot {
@@ -97,7 +145,7 @@ func slots() []slot {
 			p.Depth = depthCap
 		}
 		for s := 0; s < p.Workers; s++ {
-			out = append(out, slot{p.Dist, s, p.Workers, p.Depth, p.Unreg})
+			out = append(out, slot{p.Dist, s, p.Workers, p.Depth, p.Unreg, false})
 		}
 	}
 	return out
@@ -107,12 +155,13 @@ func slots() []slot {
 // claims
 
 type claimDef struct {
-	Name   string
-	Kind   string // deposit | deposit-unregistered | batch
-	Nonce  uint64
-	Amount int64
-	Build  func(v *world.Val) sdk.Msg
-	Hash   string
+	Compass string // compass (bridge deployment) id the claim carries
+	Name    string
+	Kind    string // deposit | deposit-unregistered | batch
+	Nonce   uint64
+	Amount  int64
+	Build   func(v *world.Val) sdk.Msg
+	Hash    string
 }
 
 // ---------------------------------------------------------------------------
@@ -131,12 +180,15 @@ type ghost struct {
 	// changed last since the latest tally (0 = none pending); after an override.
 	PowerPending  int
 	AfterOverride bool
+	// bridge deployment: id on record (set by the last activation; "" = none), the one before, activations so far
+	Deploy, Prev string
+	NAct         int
 }
 
 func (g *ghost) Clone() explore.Ghost {
 	return &ghost{Voters: append([]uint8{}, g.Voters...), Obs: append([]bool{}, g.Obs...), Cursor: g.Cursor,
 		EpochNonces: append([]uint64{}, g.EpochNonces...), Epoch: g.Epoch, Minted: g.Minted, Burned: g.Burned, BatchDone: g.BatchDone,
-		PowerPending: g.PowerPending, AfterOverride: g.AfterOverride}
+		PowerPending: g.PowerPending, AfterOverride: g.AfterOverride, Deploy: g.Deploy, Prev: g.Prev, NAct: g.NAct}
 }
 
 func (g *ghost) Key() string { b, _ := json.Marshal(g); return string(b) }
@@ -160,6 +212,7 @@ type env struct {
 	esc0       *big.Int
 	shardDepth int
 	txCache    map[string]sdk.Tx
+	abi        string
 	// states deeper than keepDepth drop their store overlay and are rebuilt from these ancestors (see ops)
 	keepDepth  int
 	anchors    map[string]*explore.Node
@@ -208,7 +261,7 @@ func run(r *report.Run, shard, nshards int, replayFile string) {
 		found := false
 		for i, d := range dists {
 			if d.Name == m["scenario"] {
-				sl = slot{Dist: i, Sub: 0, NSub: 1, Depth: len(path), Unreg: true}
+				sl = slot{Dist: i, Sub: 0, NSub: 1, Depth: len(path), Unreg: true, Replay: true}
 				found = true
 			}
 		}
@@ -233,7 +286,7 @@ func run(r *report.Run, shard, nshards int, replayFile string) {
 		e.keepDepth = kd
 	}
 
-	r.Rule = "BFS over Vote(v,claim) (really signed MsgSendToPalomaClaim / MsgBatchSendToRemoteClaim txs through ante + router) for competing claims cA,cB (deposits of 7 / 9, same nonce 1), cX (batch-executed, nonce 1), cC (deposit, nonce 2) [thorough, except 34-33-33 and 25-25-25-25: + cU, deposit of an unregistered token, nonce 1]; Tally (skyway.EndBlocker); CatchUp (skyway.EndBlocker at height 150 => UpdateValidatorNoncesToLatest); Power(v,p) p in {0, p0, 2*p0} (staking last-validator-power + last-total-power); Override(k) k in {last-1,last,last+1} (MsgNonceOverrideProposal by the gov authority); one search per stake distribution (quick: 34-33-33 and 50-30-20 to depth 6, 1-1-1 to depth 5; thorough: 34-33-33 and 67-33 depth 7, 50-30-20 / 1-1-1 / 25-25-25-25 depth 6); a state is distinct by (skyway store, last powers, ghost voter sets / observed set / epoch cursor); oracle after every step: each newly Observed claim has distinct-voter power*100 > 66*total, is the only one at its nonce in this reset epoch and sits at cursor+1; cursor moves only by observation / reset; receiver balance, supply, escrow and batch deletion equal the observed claims' effects applied exactly once; Observed never reverts; a rejected vote leaves the skyway store byte-identical"
+	r.Rule = "BFS over Vote(v,claim) (really signed MsgSendToPalomaClaim / MsgBatchSendToRemoteClaim txs through ante + router) for competing claims cA,cB (deposits of 7 / 9, same nonce 1), cX (batch-executed, nonce 1), cC (deposit, nonce 2) [thorough, except 34-33-33 and 25-25-25-25: + cU, deposit of an unregistered token, nonce 1]; Tally (skyway.EndBlocker); CatchUp (skyway.EndBlocker at height 150 => UpdateValidatorNoncesToLatest); Power(v,p) p in {0, p0, 2*p0} (staking last-validator-power + last-total-power); Override(k) k in {last-1,last,last+1} (MsgNonceOverrideProposal by the gov authority); one search per stake distribution (quick: 34-33-33 and 50-30-20 to depth 6, 1-1-1 to depth 5; thorough: 34-33-33 and 67-33 depth 7, 50-30-20 / 1-1-1 / 25-25-25-25 depth 6); plus two bridge-deployment searches on 34-33-33 (quick depth 5 / 6, thorough 6): deposits D1 (nonce 1), D2 (nonce 2), each votable with the compass id on record, with none, and with another id (the previous deployment's, or a never deployed one), Tally, and ActivateCompass = EvmKeeper.ActivateChainReferenceID with a higher contract id and a new unique id (publishes eventbus.EVMActivatedChain: latest compass id recorded, cursor and validator nonces reset; at most 1 activation per history quick, 2 thorough), started from the standard state (compass id on record) and from a state with the chain ACTIVE and no compass id on record; a state is distinct by (skyway store, last powers, ghost voter sets / observed set / epoch cursor / deployment id); oracle after every step: a newly Observed claim carries the compass id of the current deployment whenever one is on record; each newly Observed claim has distinct-voter power*100 > 66*total, is the only one at its nonce in this reset epoch and sits at cursor+1; cursor moves only by observation / reset; receiver balance, supply, escrow and batch deletion equal the observed claims' effects applied exactly once; Observed never reverts; a rejected vote leaves the skyway store byte-identical"
 	r.Assumptions = []string{
 		"a validator 'has voted for a claim' once a vote transaction of it for that claim hash succeeded, in any reset epoch (weakest reading: earlier votes keep counting after a reset, but only once per validator)",
 		"every successful MsgNonceOverrideProposal starts a new reset epoch, also when it writes the value the cursor already has (weakest reading: fewer constraints)",
@@ -241,6 +294,8 @@ func run(r *report.Run, shard, nshards int, replayFile string) {
 		"the explored code reads the block height only modulo 50; every step runs at height 101, CatchUp at 150",
 		"all claims carry the same remote block height; duplicate vote entries are not flagged by themselves, only an observation whose distinct voters hold <= 66%",
 		"tx atomicity re-implemented as in baseapp.runTx (ante cache, msg cache)",
+		"a compass activation is a reset: new epoch, cursor 0; votes cast before it keep counting for the identical claim (weakest reading), but a claim of another or no deployment must not become Observed while a deployment id is on record",
+		"'chain ACTIVE, no latest compass id on record' is not reachable from genesis on this tree (genesis chains are inactive until ActivateChainReferenceID, which publishes the recording event); it stands for a chain activated under a binary that did not record compass ids and is produced without store writes by removing the skyway eventbus subscription during the initial activation and re-subscribing (NewKeeper over the same store). UnobservedBlocksByAddr (a query for relayers) is not explored",
 		"partial-order reduction: Power(v,p) writes only staking last powers, which only the tally reads (Attest, the claim handlers and overrideNonce never read them), so power changes are explored only directly before a Tally/CatchUp, in ascending validator order, one per validator; Override directly after Override is skipped (same state as the second alone). Depth counts every step including Power",
 	}
 	spec := explore.Spec{
@@ -266,6 +321,11 @@ func run(r *report.Run, shard, nshards int, replayFile string) {
 		fmt.Fprintf(os.Stderr, "c02 worker %s %d/%d: depth %d/%d states=%d transitions=%d capped=%v %.1fs heap=%dMB rebuilt=%d\n", e.d.Name, sl.Sub, sl.NSub, res.DepthCompleted, sl.Depth, res.States, res.Transitions, res.Capped, time.Since(t0).Seconds(), e.maxHeap>>20, e.rebuilt)
 	}
 	r.Extra["states_re_executed_for_determinism_and_memory"] = float64(e.rebuilt)
+	if shard == 0 {
+		for _, d := range dropped {
+			r.Cap("search " + d + " not run: fewer worker processes than searches")
+		}
+	}
 	if sl.Sub == 0 {
 		r.Extra["depth_completed:"+e.d.Name] = float64(res.DepthCompleted)
 		r.Extra["depth_bound:"+e.d.Name] = float64(sl.Depth)
@@ -287,8 +347,29 @@ func setup(r *report.Run, sl slot) *env {
 	}
 	w := world.New(world.Config{Stakes: world.StakesOf(stakes...), Users: []string{"adm", "U1", "R"}, Height: baseH})
 	ctx := w.Root
+	if d.Legacy {
+		// A chain that is ACTIVE while skyway has no latest compass id on record is not reachable from genesis
+		// with this tree (genesis chains are inactive until ActivateChainReferenceID, which publishes the
+		// event that records the id); it is the state of a chain activated under a binary that did not record
+		// compass ids yet. It is produced here without writing the store: the skyway subscription is removed
+		// while the chain is activated and restored by constructing the skyway keeper again over the same store
+		// (NewKeeper subscribes under the same name).
+		eventbus.EVMActivatedChain().Unsubscribe("skyway-keeper")
+	}
 	must(w.StdChain(ctx, ref))
-	e := &env{w: w, r: r, d: d, sl: sl, byHash: map[string]int{}, valIdx: map[string]int{}, rcv: w.User("R"), shardDepth: 2, txCache: map[string]sdk.Tx{}, anchors: map[string]*explore.Node{}, keepDepth: sl.Depth}
+	if d.Legacy {
+		a := w.App
+		_ = skywaykeeper.NewKeeper(a.AppCodec(), a.AccountKeeper, a.StakingKeeper, a.BankKeeper, a.SlashingKeeper,
+			a.DistrKeeper, a.TransferKeeper, a.EvmKeeper, a.ConsensusKeeper, a.PalomaKeeper, a.TokenFactoryKeeper,
+			skywaykeeper.NewSkywayStoreGetter(a.GetKey(skywaytypes.StoreKey)), w.Gov, authcodec.NewBech32Codec(chainparams.ValidatorAddressPrefix))
+	}
+	if got, want := w.App.SkywayKeeper.GetLatestCompassID(ctx, ref), map[bool]string{false: world.CompassID, true: ""}[d.Legacy]; got != want {
+		panic(fmt.Sprintf("setup: latest compass id %q, want %q", got, want))
+	}
+	if names := w.App.EvmKeeper.GetActiveChainNames(ctx); len(names) != 1 || names[0] != ref {
+		panic(fmt.Sprintf("setup: active chains %v", names))
+	}
+	e := &env{w: w, r: r, d: d, sl: sl, byHash: map[string]int{}, valIdx: map[string]int{}, rcv: w.User("R"), shardDepth: 2, txCache: map[string]sdk.Tx{}, anchors: map[string]*explore.Node{}, keepDepth: sl.Depth, abi: world.CompassABI()}
 	denom, err := w.BridgeToken(ctx, w.User("adm"), "t1", ref, erc20Reg, 1000, w.User("U1"))
 	must(err)
 	e.denom = denom
@@ -322,19 +403,33 @@ func setup(r *report.Run, sl slot) *env {
 		panic("setup: cursor not 0")
 	}
 
-	dep := func(name string, nonce uint64, erc20 string, amt int64, kind string) {
-		e.claims = append(e.claims, &claimDef{Name: name, Kind: kind, Nonce: nonce, Amount: amt, Build: func(v *world.Val) sdk.Msg {
-			return world.DepositClaim(v, ref, nonce, 1, erc20, amt, ethSender, e.rcv.Addr.String())
+	depC := func(name string, nonce uint64, erc20 string, amt int64, kind, compass string) {
+		e.claims = append(e.claims, &claimDef{Name: name, Kind: kind, Nonce: nonce, Amount: amt, Compass: compass, Build: func(v *world.Val) sdk.Msg {
+			m := world.DepositClaim(v, ref, nonce, 1, erc20, amt, ethSender, e.rcv.Addr.String())
+			m.CompassId = compass
+			return m
 		}})
 	}
-	dep("cA", 1, erc20Reg, 7, "deposit")
-	dep("cB", 1, erc20Reg, 9, "deposit")
-	e.claims = append(e.claims, &claimDef{Name: "cX", Kind: "batch", Nonce: 1, Build: func(v *world.Val) sdk.Msg {
-		return world.BatchExecutedClaim(v, ref, 1, 1, e.batchNonce, erc20Reg)
-	}})
-	dep("cC", 2, erc20Reg, 5, "deposit")
-	if sl.Unreg {
-		dep("cU", 1, erc20Unk, 3, "deposit-unregistered")
+	dep := func(name string, nonce uint64, erc20 string, amt int64, kind string) {
+		depC(name, nonce, erc20, amt, kind, world.CompassID)
+	}
+	if d.Compass {
+		// deposits D1 (nonce 1) and D2 (nonce 2), each as it would be reported for every deployment id of the
+		// scenario, without a compass id, and for a foreign id
+		for _, c := range compassIDs {
+			depC("D1@"+c.tag, 1, erc20Reg, 7, "deposit", c.id)
+			depC("D2@"+c.tag, 2, erc20Reg, 5, "deposit", c.id)
+		}
+	} else {
+		dep("cA", 1, erc20Reg, 7, "deposit")
+		dep("cB", 1, erc20Reg, 9, "deposit")
+		e.claims = append(e.claims, &claimDef{Name: "cX", Kind: "batch", Nonce: 1, Compass: world.CompassID, Build: func(v *world.Val) sdk.Msg {
+			return world.BatchExecutedClaim(v, ref, 1, 1, e.batchNonce, erc20Reg)
+		}})
+		dep("cC", 2, erc20Reg, 5, "deposit")
+		if sl.Unreg {
+			dep("cU", 1, erc20Unk, 3, "deposit-unregistered")
+		}
 	}
 	for i, c := range e.claims {
 		h, err := c.Build(w.Vals[0]).(skywaytypes.EthereumClaim).ClaimHash()
@@ -355,7 +450,34 @@ func setup(r *report.Run, sl slot) *env {
 }
 
 func (e *env) ghost0() *ghost {
-	return &ghost{Voters: make([]uint8, len(e.claims)), Obs: make([]bool, len(e.claims)), EpochNonces: []uint64{}}
+	g := &ghost{Voters: make([]uint8, len(e.claims)), Obs: make([]bool, len(e.claims)), EpochNonces: []uint64{}, Deploy: world.CompassID}
+	if e.d.Legacy {
+		g.Deploy = ""
+	}
+	return g
+}
+
+// compass ids of the deployment scenarios: the initial deployment, the ids later
+// activations use, none, and one that is never deployed.
+var compassIDs = []struct{ tag, id string }{
+	{"c1", world.CompassID}, {"c2", "verif-compass-2"}, {"c3", "verif-compass-3"}, {"none", ""}, {"foreign", "verif-compass-foreign"},
+}
+
+func compassTag(id string) string {
+	for _, c := range compassIDs {
+		if c.id == id {
+			return c.tag
+		}
+	}
+	return id
+}
+
+// maxActivations bounds the ActivateCompass steps of one history.
+func (e *env) maxActivations() int {
+	if e.r.Thorough() || e.sl.Replay {
+		return 2
+	}
+	return 1
 }
 
 func (e *env) powers(ctx sdk.Context) ([]int64, int64) {
@@ -483,6 +605,11 @@ func (e *env) post(ctx sdk.Context, g *ghost, count bool) *explore.Fail {
 				pw += ps[i]
 			}
 		}
+		if g.Deploy != "" && c.Compass != g.Deploy {
+			return explore.Failf("deployment:observed-claim-not-of-the-current-bridge-deployment",
+				"claim %s (nonce %d, compass id %q) became Observed under the cursor of deployment %q (distinct voters %s, stored vote entries %v)",
+				c.Name, c.Nonce, c.Compass, g.Deploy, e.names(g.Voters[ci]), votes[ci])
+		}
 		if !(pw*100 > 66*total) {
 			return explore.Failf("quorum:observed-with-distinct-voter-power<=66%",
 				"claim %s (nonce %d) became Observed with distinct voters %s holding %d of %d power (%d%%, needs >66%%); stored vote entries %v; powers %v",
@@ -538,6 +665,9 @@ func (e *env) post(ctx sdk.Context, g *ghost, count bool) *explore.Fail {
 	if (len(batches) == 0) != g.BatchDone {
 		return explore.Failf("effect:batch-deletion", "%d open batches while batch executed = %v", len(batches), g.BatchDone)
 	}
+	if got := k.GetLatestCompassID(ctx, ref); got != g.Deploy {
+		return explore.Failf("deployment:latest-compass-id-changed-without-activation", "latest compass id on record is %q, last activation gave %q", got, g.Deploy)
+	}
 	if got := e.cursor(ctx); got != g.Cursor {
 		return explore.Failf("order:cursor-moved-without-observation", "last observed nonce is %d; last reset / observations of this epoch give %d", got, g.Cursor)
 	}
@@ -561,6 +691,20 @@ func (e *env) vote(ctx sdk.Context, vi, ci int) world.TxResult {
 		e.txCache[key] = tx
 	}
 	return e.w.DeliverBuiltTx(ctx, tx)
+}
+
+// offered: in a deployment scenario validators report a claim with the compass id
+// on record, without one, or with another one (the previous deployment's, or a
+// foreign id while there is no previous deployment).
+func (e *env) offered(g *ghost, c *claimDef) bool {
+	if !e.d.Compass {
+		return true
+	}
+	other := g.Prev
+	if g.NAct == 0 {
+		other = "verif-compass-foreign"
+	}
+	return c.Compass == g.Deploy || c.Compass == "" || c.Compass == other
 }
 
 func pct(a, b int64) int64 {
@@ -646,6 +790,9 @@ func (e *env) rawOps(n *explore.Node) []explore.Op {
 	if g0.PowerPending == 0 {
 		for vi := range w.Vals {
 			for ci, c := range e.claims {
+				if !e.offered(g0, c) {
+					continue
+				}
 				vi, ci, c := vi, ci, c
 				add(fmt.Sprintf("Vote(v%d,%s)", vi, c.Name), func(ctx *sdk.Context, g *ghost) *explore.Fail {
 					if before == "" {
@@ -681,6 +828,29 @@ func (e *env) rawOps(n *explore.Node) []explore.Op {
 		w.SkywayEnd(*ctx, nil)
 		return nil
 	})
+	if e.d.Compass {
+		if g0.NAct < e.maxActivations() {
+			id := compassIDs[g0.NAct+1] // c2, then c3
+			add("ActivateCompass("+id.tag+")", func(ctx *sdk.Context, g *ghost) *explore.Fail {
+				// the real activation path: chain info switched to the new contract, eventbus.EVMActivatedChain published
+				// (skyway: latest compass id recorded, cursor and validator nonces reset to 0)
+				err := w.App.EvmKeeper.ActivateChainReferenceID(*ctx, ref, &evmtypes.SmartContract{Id: uint64(g.NAct + 2), AbiJSON: e.abi, Bytecode: []byte{0x60, 0x80}}, world.CompassAddr, []byte(id.id))
+				if err != nil {
+					return explore.Failf("harness:activate", "activation rejected: %v", err)
+				}
+				g.Prev, g.Deploy = g.Deploy, id.id
+				g.NAct++
+				g.Epoch++
+				g.Cursor = 0
+				g.EpochNonces = []uint64{}
+				if count {
+					e.bump("compass_activations")
+				}
+				return nil
+			})
+		}
+		return ops
+	}
 	add("CatchUp", func(ctx *sdk.Context, g *ghost) *explore.Fail {
 		g.PowerPending = 0
 		w.SkywayEnd(world.At(*ctx, 150, ctx.BlockTime()), nil)
